@@ -4,6 +4,9 @@ Monitor 1 (artefact-only, defined-before-use): every output model is replayed op
 (vv.defuse): graph inputs and CPU-operator outputs define their arena extents, NPU operations and DMAs must read only defined bytes (exact
 footprints) and define what they write, table slots in SHRAM are defined by DMA and invalidated by operations whose buffers cover them, and after
 each Ethos-U operator all of its output tensors must be completely defined.
+Monitor 2 (writer tags): every emitted stream is replayed with a last-writer tag per byte; the tensor identity of each access comes from the compiler's own
+stripe / DMA records (harness-side wrapper of generate_command_stream).  A read of tensor T (for encoded weights: of depth slice d of buffer B) must not find
+bytes that the stream last wrote for another tensor or slice - this is what separates stale / foreign bytes from merely initialised ones.
 Monitor 3 (poison differential): the artefact is executed twice in the NPU model (vv.npuexec) with different arena / fast-scratch poison patterns and the same inputs;
 the outputs must be identical.  Row-granular writer tags for rolling buffers are checked with C10 (same hook data).
 """
@@ -20,6 +23,9 @@ CASE_TIMEOUT = 300.0
 def cfg_hook(rng, cfg, fam, i):
     if i % 2 == 0:
         cfg["cache"] = int(rng.choice([2048, 4096, 8192, 16384, 32768]))
+    if fam == "buffer-stress" and i % 3 != 1:
+        # two cores + weights streamed through SRAM buffers: per-core ranges carry padding when a core's channel count is not a multiple of 8
+        cfg["acc"], cfg["mode"] = "ethos-u65-512", None
     if fam == "lut-stress" and i % 2:
         cfg["acc"] = str(rng.choice(["ethos-u55-32", "ethos-u55-64"]))  # no reserved LUT banks: slots are invalidated by other ops
 
@@ -121,7 +127,28 @@ def poison_differential(c, viol, counters):
                                                                "witness": c.witness()})
 
 
+def writer_tags(c, log, viol, counters):
+    """monitor 2: replay every emitted stream with a last-writer tag per byte (tensor identity from the compiler's own stripe records, obtained through a
+    harness-side wrapper of generate_command_stream): a read of tensor T must not find bytes that this stream last wrote for another tensor / depth slice"""
+    for call in log.calls:
+        c2 = {}
+        try:
+            found = defuse.tag_replay(call, c.case["cfg"]["acc"], c2)
+        except (ValueError, KeyError, IndexError) as e:  # geometry outside the footprint model: counted, not judged
+            counters["tag_streams_unmodelled"] = counters.get("tag_streams_unmodelled", 0) + 1
+            continue
+        for k, n in c2.items():
+            counters[k] = counters.get(k, 0) + n
+        for f in found[:3]:
+            mech = "read-of-bytes-last-written-for-another-tensor:%s" % f["part"]
+            viol.setdefault(mech, {"mech": mech, "msg": "%s reads %s %s at region %s %s, but those bytes were last written as %s" % (f["op"], f["part"], f["want"], f["region"], f["first"], f["found"]),
+                                   "witness": c.witness()})
+
+
 def run_case(case):
+    from vv import compile as vc
+
+    log = vc.StreamLog().install()
     c = campaign.Compiled(case)
     counters = {"compilations": 1, "compiled_ok": 0}
     viol = {}
@@ -129,6 +156,7 @@ def run_case(case):
         if c.art is not None:
             counters["compiled_ok"] = 1
             check(c, viol, counters)
+            writer_tags(c, log, viol, counters)
             poison_differential(c, viol, counters)
     finally:
         c.cleanup()
@@ -141,7 +169,8 @@ def summarise(agg, tier):
     q = tier == "quick"
     return {
         "thresholds": {"compiled_ok": 300 if q else 9000, "ops_replayed": 5000 if q else 150000, "bytes_read_checked": 5000000 if q else 200000000, "lut_dmas": 50 if q else 2000,
-                       "lut_reads": 100 if q else 4000, "npu_outputs_checked": 300 if q else 9000, "poison_differentials": 250 if q else 7000},
+                       "lut_reads": 100 if q else 4000, "npu_outputs_checked": 300 if q else 9000, "poison_differentials": 250 if q else 7000,
+                       "tagged_reads_checked": 4000 if q else 120000, "tagged_reads_of_stream_written_bytes": 2500 if q else 80000, "tagged_weight_slices": 300 if q else 9000},
         "rule": "compile campaign over cascade-heavy (stripe-stress), buffering-heavy (buffer-stress), LUT-heavy (lut-stress, half on accelerators without reserved LUT banks), "
                 "alias-prone, CPU/NPU-interleaved and regular families x random configurations with small caches; every read of every decoded operation is checked per byte "
                 "interval against the shadow 'defined' set. distinct = (family, accelerator, cache, ops replayed) classes",
